@@ -7,3 +7,18 @@ From WaxProofs Require Import ParseFacts.
 Theorem C08_display_suffix : forall a b, drop_bytes (a ++ b) (blen a) = Some b.
 Proof. exact drop_bytes_app. Qed.
 Print Assumptions C08_display_suffix.
+
+From WaxModel Require Import Glob.
+From WaxModel Require Import Parse.
+From WaxProofs Require Import SpanFacts PartitionFacts.
+
+(* partitioning a built glob never cuts its expression inside a character - the bytes popped end where a top-level token begins
+   (the tokens tile the expression), unrooting a tree wildcard skips one ASCII character - and never fails to re-annotate the
+   postfix: the only possible failure is a checked overflow in the text variance *)
+Theorem C08_partition_is_total_up_to_overflow : forall hc e t r s, build e = BuildOk t r -> partition hc e t = Panic s -> s = PanicOverflow.
+Proof. exact partition_panics_only_by_overflow. Qed.
+Print Assumptions C08_partition_is_total_up_to_overflow.
+
+Theorem C08_top_level_tokens_tile_the_expression : forall e f tm i ts i', at_ e i -> p_tokens f tm i = POk (ts, i') -> tiled (i_pos i) ts (i_pos i').
+Proof. exact p_tokens_tiled. Qed.
+Print Assumptions C08_top_level_tokens_tile_the_expression.
